@@ -137,3 +137,23 @@ package api
 //@   trusted
 //@   pure
 //@   ensures a == ufr[Address]("runtimeAddrOf", id)
+
+// ---- stake claims (C10, C14): "insufficient stake" reaches callers as the sentinel itself ----
+
+//@ ghost func TotalClaimsOK(sa *StakeAccumulator, tm map[ThresholdKind]quantity.Quantity, exclude *StakeClaim) bool { return ufb("totalClaimsOK", sa, tm, exclude) }
+
+//@ func StakeAccumulator.TotalClaims
+//@   trusted
+//@   modifies nothing
+//@   ensures (err == nil) == TotalClaimsOK(sa, thresholds, exclude)
+//@   ensures err == nil ==> result0 != nil && fresh(result0) && quantity.Val(result0) >= 0
+//@   ensures err != nil ==> result0 == nil
+//@   note sums the thresholds of the recorded claims; fails only for a threshold kind missing from the map or an invalid quantity (named by TotalClaimsOK)
+
+//@ func EscrowAccount.CheckStakeClaims
+//@   props C10 C14
+//@   requires e != nil
+//@   modifies nothing
+//@   ensures err != nil && TotalClaimsOK(&e.StakeAccumulator, tm, nil) ==> err == ErrInsufficientStake
+//@   ensures TotalClaimsOK(&e.StakeAccumulator, tm, nil) ==> (err == nil) == (quantity.Val(&e.Active.Balance) >= uf("totalClaims", &e.StakeAccumulator, tm))
+//@   note when the claims can be totalled, the only failure is the sentinel ErrInsufficientStake itself (callers compare errors by identity: a wrapped error would be treated as fatal by block processing)
